@@ -165,6 +165,8 @@ def build(L, case):
         reg = L.RegionLayout(b['id'], np.array(b['polygon']))
         for l in b['lines']:
             tl = L.TextLine(id=l['id'], baseline=np.array(l['baseline'], dtype=np.float64), polygon=np.array(l['polygon']), heights=list(l['heights']), transcription=l['text'])
+            # a confidence left by an earlier stage (the page parser's estimate, or a rounded value read from PAGE XML): the export reports its own estimate
+            tl.transcription_confidence = [None, None, 0.0, 0.31, 0.5, 1.0][l['seed'] % 6]
             if l['mode'] != 'absent' and l['text']:
                 lg, T = mk_logits(np.random.default_rng(l['seed']), l['text'], CH, 'peaky' if l['mode'] == 'nocoords' else l['mode'])
                 tl.logits, tl.characters = lg, list(CH) + ['<blank>']
